@@ -276,7 +276,7 @@ func cborencGen(args []string) error {
 				}
 				switch r.Intn(5) {
 				case 0: // some multi-byte runes
-					b = append(b, []byte("é€🌐")...)
+					b = append(b, []byte("é€🌐\ufffd")...)
 				case 1: // damage
 					if l > 0 {
 						b[r.Intn(l)] = byte(128 + r.Intn(128))
